@@ -132,6 +132,25 @@ def run(chk):
                 chk.diverge(dict(sig0, clause="result", form="ndarray-inplace", observed=g["k"]), dict(case, observed=g))
             if qr.snapshot(ya) != sy3:
                 chk.diverge(dict(sig0, clause="operands-unchanged", form="ndarray-inplace"), case)
+        # plain (not in-place) operators on ndarray magnitudes: no operand is touched, and applying the operator again gives the same
+        if op in qr.BIN and not a["num"] and not b["num"]:
+            U = ureg[float]
+            xa = U.Quantity(np.array([float(F(*a["m"]))] * 3), qr.mkq(U, a, float).units)
+            ya = U.Quantity(np.array([float(F(*b["m"]))] * 3), qr.mkq(U, b, float).units)
+            sx4, sy4 = qr.snapshot(xa), qr.snapshot(ya)
+            outs = []
+            for _ in range(2):
+                try:
+                    with np.errstate(all="ignore"):
+                        r = qr.BIN[op](xa, ya)
+                    parts = r if isinstance(r, tuple) else (r,)
+                    outs.append(tuple((np.asarray(getattr(p_, "magnitude", p_)).tolist(), str(getattr(p_, "units", ""))) for p_ in parts))
+                except Exception as e:
+                    outs.append(qr.kind_of_exception(e))
+            if (qr.snapshot(xa), qr.snapshot(ya)) != (sx4, sy4):
+                chk.diverge(dict(sig0, clause="operands-unchanged", form="ndarray-plain"), case)
+            elif repr(outs[0]) != repr(outs[1]):
+                chk.diverge(dict(sig0, clause="not-repeatable", form="ndarray-plain"), dict(case, first=repr(outs[0])[:200], second=repr(outs[1])[:200]))
     chk.traces += len(cases)
 
     events = drive_default(chk, rng, 4000 if thorough else 800)
